@@ -174,6 +174,7 @@ func writeEvidence(spec *Spec, tier string, seed int, obs []*Obligation, results
 	funcs := map[string]bool{}
 	stubs := map[string]bool{}
 	var perOb []map[string]interface{}
+	discharged := 0
 	var solverS float64
 	proven, asserts := 0, 0
 	for _, o := range obs {
@@ -204,6 +205,9 @@ func writeEvidence(spec *Spec, tier string, seed int, obs []*Obligation, results
 			reached = append(reached, k)
 		}
 		sort.Strings(reached)
+		if len(r.rep.Violations) == 0 && len(r.rep.Unknowns) == 0 && len(r.rep.Unsupported) == 0 && r.rep.UnwoundOut == 0 && r.rep.Paths > 0 {
+			discharged++
+		}
 		perOb = append(perOb, map[string]interface{}{
 			"name": o.Name, "entry": o.Entry, "pkg": o.Pkg, "bound": o.Bound, "twin": o.Twin,
 			"paths": r.rep.Paths, "assertion_instances": r.rep.Asserts, "proven_unsat": r.rep.Proven, "trivially_true": r.rep.Trivial,
@@ -237,7 +241,9 @@ func writeEvidence(spec *Spec, tier string, seed int, obs []*Obligation, results
 			"assertion_instances":           asserts,
 			"proven_unsat":                  proven,
 			"solver_seconds":                solverS,
-			"obligations":                   perOb,
+			"obligations":                   len(perOb),
+			"discharged":                    discharged,
+			"obligation_details":            perOb,
 			"outside_the_claim":             spec.Outside,
 			"notes":                         notes,
 			"exhaustive":                    false,
